@@ -108,7 +108,13 @@ func build(id string) string {
 	if os.Getenv("VERIF_RACE") == "1" {
 		race = true
 	}
-	work := filepath.Join(vd, ".work", id)
+	// VERIF_WORK: scratch root for generated sources and binaries (default <verif>/.work); a separate
+	// one lets a run against another copy of the repository (VERIF_REPO) coexist with ordinary runs
+	workRoot := os.Getenv("VERIF_WORK")
+	if workRoot == "" {
+		workRoot = filepath.Join(vd, ".work")
+	}
+	work := filepath.Join(workRoot, id)
 	os.RemoveAll(filepath.Join(work, "rw"))
 	if err := os.MkdirAll(filepath.Join(work, "rw"), 0o755); err != nil {
 		die(2, "%v", err)
